@@ -268,15 +268,68 @@ def _build_probe(
             `assign` is still applied, because context updates are part of the
             computed next state rather than an external side effect.
             """
-            from .actions import ASSIGN, resolve_builtin
+            from .actions import (
+                ASSIGN,
+                CHOOSE,
+                ENQUEUE_ACTIONS,
+                PURE,
+                RAISE,
+                resolve_builtin,
+            )
 
             for action_def in actions or []:
                 recorded.append(action_def)
-                if resolve_builtin(action_def.type) == ASSIGN:
-                    self._apply_assign(
-                        self._resolve_params(action_def.params, event) or {},
-                        event,
-                    )
+                # 🙅 A user implementation of the same name wins in a real
+                #    run, and user actions are never executed here.
+                if action_def.type in self.machine.logic.actions:
+                    continue
+                canonical = resolve_builtin(action_def.type)
+                # 🧮 `choose` / `pure` / `enqueueActions` decide WHICH actions
+                #    run, and `raise` decides which event is processed next:
+                #    they are part of the computed next state, exactly like
+                #    `assign`. Merely recording them left nested assigns
+                #    unapplied and raised events unprocessed, so the pure API
+                #    ended in a different state than a real interpreter.
+                if canonical in (ASSIGN, CHOOSE, PURE, ENQUEUE_ACTIONS):
+                    try:
+                        followups = self._collect_builtin_followups(
+                            canonical, action_def, event
+                        )
+                    except Exception:
+                        logger.exception(
+                            "🔥 Built-in action '%s' raised in the pure API; "
+                            "skipping remaining actions.",
+                            action_def.type,
+                        )
+                        return
+                    if followups:
+                        self._action_depth += 1
+                        try:
+                            self._execute_actions(
+                                [ActionDefinition(f) for f in followups],
+                                event,
+                            )
+                        finally:
+                            self._action_depth -= 1
+                elif canonical == RAISE:
+                    try:
+                        params = (
+                            self._resolve_params(action_def.params, event)
+                            or {}
+                        )
+                        # ⏱️ A delayed raise needs a timer; none is started.
+                        if not self._resolve_delay(params.get("delay"), event):
+                            self.send(
+                                self._resolve_event_spec(
+                                    params.get("event"), event
+                                )
+                            )
+                    except Exception:
+                        logger.exception(
+                            "🔥 'raise' failed in the pure API; skipping "
+                            "remaining actions."
+                        )
+                        return
 
         def _schedule_state_tasks(self, state: Any) -> None:
             """Suppresses timers and invoked services entirely."""
